@@ -312,6 +312,9 @@ def m_index(I, st, info, args, depth):
     rk, a, b = MD.range_parts(I, st, idx)
     if rk not in ("RangeTo", "Range", "RangeFrom", "RangeFull"):
         return None
+    raw = deref(I, st, args[0])
+    if isinstance(raw, Seq) and (raw.attrs.get("elem") is not None or (raw.elems is not None and raw.kind != "bytes" and any(not isinstance(x, Aff) for x in raw.elems))):
+        return None     # a sequence of things other than bytes (the segments of a token): the general model keeps the elements' names
     s_ = _bytes_seq(I, st, args[0])
     L = s_.length
     a = I.resolve(st, a) if a is not None and rk in ("Range", "RangeFrom") else Aff(0)
